@@ -7,7 +7,9 @@ PID = 'C16'
 CONE = ['Imports.v', 'ImportFacts.v', 'gen/ImportGen.v']
 FORMS = ['import bs4', 'from bs4 import BeautifulSoup', 'import soupsieve', 'import soupsieve.css_match',
          'import soupsieve.css_parser', 'import soupsieve.css_types', 'import soupsieve.util', 'import soupsieve.pretty',
-         'from soupsieve import select, SoupSieve', 'import bs4.element', 'import bs4.css']
+         'from soupsieve import select, SoupSieve', 'import bs4.element', 'import bs4.css',
+         'from soupsieve import *', 'from bs4 import *', 'import soupsieve as sv, bs4.css as bc', 'from soupsieve import __meta__, util, css_types',
+         'import importlib; importlib.import_module("soupsieve"); importlib.reload(importlib.import_module("soupsieve"))']
 
 BATTERY = [
     ('<html><body><p id="a">x<!-- c --></p><p><!-- only comment --></p><div class="x y"><b>b</b></div></body></html>', 'html.parser',
